@@ -265,6 +265,21 @@ def check(ctx, rep):
         rep.missing('R18.g', 'crux_core facts')
     else:
         _prims.check_request_typestate(rep, 'R18.g', _core)
+    # R18.h (legacy capability API): "a timer cleared before it was ever requested sends nothing" rests on the cleared mark being in place
+    # when clear() returns: the insert into the cleared-timer set happens in the body of Time::clear itself, on every path — not in the task
+    # it spawns, which the executor runs after the timer task that was spawned earlier
+    rep.rule('R18.h', 'legacy Time::clear marks the id as cleared before it returns (not inside the task it spawns)', floor=1)
+    clears_ = [f for f in time.built if f.kind == 'AssocFn' and f.name == 'clear' and path_matches(f.assoc.get('self_adt'), 'crux_time::Time') and not f.assoc.get('trait')]
+    if len(clears_) != 1:
+        rep.missing('R18.h', 'crux_time::Time::clear')
+    else:
+        from rules.common import Summaries as _Sm
+        f_ = clears_[0]
+        ins = _Sm([time]).sites(f_, ['std::collections::hash::set::HashSet::insert', 'alloc::collections::btree::set::BTreeSet::insert'], 'must')
+        sync_ = bool(ins) and not any(r_ in f_.reachable([0], removed_blocks=ins) for r_ in f_.return_blocks())
+        rep.expect('R18.h', sync_, 'Time::clear|marks-before-return', 'the id is inserted into the cleared set in the body of clear(), on every path',
+                   'legacy Time::clear returns before the id is in the cleared-timer set (the insert moved into the spawned task, or is conditional): a timer '
+                   'started and cleared in one update is polled first, sends NotifyAt / NotifyAfter and then Clear')
     rep.assume('futures oneshot: a Receiver whose Sender was dropped reports is_terminated and is skipped by select_biased!')
     rep.assume('NOT DECIDED: every interleaving of fire / clear / drop / late answers; the legacy API after the outcome')
 
